@@ -49,6 +49,12 @@ def load_known() -> list[dict]:
     if os.path.exists(KNOWN_FILE):
         with open(KNOWN_FILE) as f:
             out += json.load(f)["findings"]
+    d = os.path.join(ROOT, "known_findings.d")       # per-property fragments, same format
+    if os.path.isdir(d):
+        for fn in sorted(os.listdir(d)):
+            if fn.endswith(".json"):
+                with open(os.path.join(d, fn)) as f:
+                    out += json.load(f)["findings"]
     return out
 
 
@@ -77,7 +83,7 @@ class Ctx:
         self.assumptions: list[str] = []
         self._violations: dict[str, dict] = {}
         self._viol_count = 0
-        self.t0 = time.time()
+        self.t0 = time.perf_counter()
         self.notes: list[str] = []
 
     # -- parallel map ------------------------------------------------------
@@ -161,7 +167,7 @@ class Ctx:
             "level": self.level,
             "coverage": jsonable(cov),
             "assumptions": self.assumptions,
-            "wall_s": round(time.time() - self.t0, 2),
+            "wall_s": round(time.perf_counter() - self.t0, 2),
             "violations": len(new),
         }
         os.makedirs(EVIDENCE_DIR, exist_ok=True)
